@@ -339,6 +339,52 @@ def ob_fresh(defuzz, label):
     return run
 
 
+def ob_reuse_kinds(defuzz, order, label):
+    """ONE Automatic defuzzifier object used on fuzzy outputs of different kinds (as when the object is shared by output variables):
+    the kind is inferred from the fuzzy output at hand every time, and the object's own type stays Automatic"""
+    def run(ob):
+        fl = install()
+        set_mode("R")
+        c0, c1, s0, e0, w0, w1 = (rvar(n) for n in ("c0", "c1", "s0", "e0", "w0_0", "w1_0"))
+        pre = [unit(w0), unit(w1), w0.v + w1.v > 0, s0.v != e0.v]
+        ins = {"c0": c0, "c1": c1, "s0": s0, "e0": e0, "w0_0": w0, "w1_0": w1}
+
+        def rbody(v):
+            return "\n".join([f"c0, c1, s0, e0, w0, w1 = {lit(v['c0'])}, {lit(v['c1'])}, {lit(v['s0'])}, {lit(v['e0'])}, {lit(v['w0_0'])}, {lit(v['w1_0'])}",
+                              f"D = fl.{defuzz}()",
+                              "ts = fl.Aggregated('ts', 0.0, 1.0, None, [fl.Activated(fl.Constant('a', c0), w0), fl.Activated(fl.Constant('b', c1), w1)])",
+                              "tk = fl.Aggregated('tk', 0.0, 1.0, None, [fl.Activated(fl.Ramp('a', s0, e0), w0), fl.Activated(fl.Ramp('b', e0, s0), w1)])",
+                              f"order = {order!r}",
+                              "with np.errstate(all='ignore'): got = [float(D.defuzzify(ts if k == 'ts' else tk)) for k in order]",
+                              f"norm = (w0 + w1) if {defuzz == 'WeightedAverage'!r} else 1.0",
+                              "exp = {'ts': (w0 * c0 + w1 * c1) / norm, 'tk': (w0 * (s0 + (e0 - s0) * w0) + w1 * (e0 + (s0 - e0) * w1)) / norm}",
+                              "bad = not all(same(g, exp[k], 1e-9) for g, k in zip(got, order)) or D.type != fl.WeightedDefuzzifier.Type.Automatic",
+                              "verdict(bad, 'one Automatic object on %r: %r, documented %r; type afterwards %r' % (order, got, [exp[k] for k in order], D.type))"])
+
+        rp = replay_fn(PROPERTY, label, rbody, key=None)
+
+        def body():
+            D = getattr(fl, defuzz)()
+            ts = fl.Aggregated("ts", 0.0, 1.0, None, [fl.Activated(fl.Constant("a", c0), w0), fl.Activated(fl.Constant("b", c1), w1)])
+            tk = fl.Aggregated("tk", 0.0, 1.0, None, [fl.Activated(fl.Ramp("a", s0, e0), w0), fl.Activated(fl.Ramp("b", e0, s0), w1)])
+            return [D.defuzzify(ts if k == "ts" else tk) for k in order], D.type
+
+        for p in ob.paths(pre, body):
+            if p.exc is not None:
+                ob.unexpected(pre, p, label, ins, rp)
+                continue
+            got, dtype = p.result
+            norm = (w0.v + w1.v) if defuzz == "WeightedAverage" else z3.RealVal(1)
+            exp = {"ts": (w0.v * c0.v + w1.v * c1.v) / norm, "tk": (w0.v * (s0.v + (e0.v - s0.v) * w0.v) + w1.v * (e0.v + (s0.v - e0.v) * w1.v)) / norm}
+            claims = [z3.BoolVal(dtype == fl.WeightedDefuzzifier.Type.Automatic)]
+            for g, k in zip(got, order):
+                ge = elements(g)
+                claims.append(z3.And(len(ge) == 1, is_val(ge[0], exp[k])))
+            ob.prove(pre, p, z3.And(*claims), label, ins, rp)
+
+    return run
+
+
 def ob_const_bounds(n, agg_name, label):
     """a weighted average of constants lies between the smallest and largest *activated* constant"""
 
@@ -474,6 +520,9 @@ def _obligations(tier, seed):
         add(d, "Automatic", ("Constant", "Triangle"), (0, 1), None)
     for d in defs:
         obs.append((f"{d}/fresh-results", ob_fresh(d, f"{d}/fresh-results")))
+        for order in (("ts", "tk", "ts"), ("tk", "ts")):
+            nm = f"{d}/one-object/{'-'.join(order)}"
+            obs.append((nm, ob_reuse_kinds(d, order, nm)))
     for n in (1, 2, 3):
         for agg in (None, "Maximum"):
             nm = f"constants-bounds/n{n}/{agg or 'none'}"
